@@ -440,6 +440,13 @@ func (d *Driver) unmarshalOne(ti TypeInfo, b []byte, valid bool, lbl string, rem
 			}
 		}
 	}
+	if ti.Set != "unsafe" {
+		// safe mode: the caller owns the buffer again as soon as Unmarshal returns (a pooled read buffer is re-used); whatever the
+		// message holds, reads as and marshals to from here on must not depend on it
+		for i := range in {
+			in[i] = 0xA5
+		}
+	}
 	e.Dynst, e.Dyn = d.dynParse(ti, b)
 	if e.St == "ok" {
 		guard(&e.St2, &e.Note, func() { e.M = d.Project(ti, dst) })
